@@ -114,7 +114,7 @@ class MAUPITIConv2d(nn.Conv2d, MAUPITIModule):
         if not self.skip_requant:
             with torch.no_grad():
                 self._zero_point = (self.add_bias + (self.clip_inf * 2**self.shift) -
-                                    self.clip_inf * self.scale *
+                                    self.in_offset * self.scale *
                                     torch.sum(self.weight, dim=(1, 2, 3)
                                               ).view(1, self.out_channels, 1, 1))
         else:
@@ -130,7 +130,7 @@ class MAUPITIConv2d(nn.Conv2d, MAUPITIModule):
         if self.padding == 'valid':
             self.pad = nn.ConstantPad2d(0, 0)
         else:
-            self.pad = nn.ConstantPad2d(self.padding[0], self.clip_inf)
+            self.pad = nn.ConstantPad2d(self.padding[0], self.in_offset)
 
     def forward(self, input: torch.Tensor) -> torch.Tensor:
         """The forward function of integer conv2d layer.
@@ -183,6 +183,12 @@ class MAUPITIConv2d(nn.Conv2d, MAUPITIModule):
     @property
     def device(self):
         return next(self.parameters()).device
+
+    @property
+    def in_offset(self):
+        # Offset of the (offset-signed) input activations, set by the input precision
+        return torch.tensor(-2 ** (self.in_quantizer.precision - 1),
+                            device=self.device)
 
     @property
     def clip_inf(self):
